@@ -78,7 +78,7 @@ def child_wf(key, ci):
     child is filed under its own name ('+' for a wildcard key)."""
     return (ci.attribute is not None and ((key is not None and key != '') or isa(ci, 'info.SectionInfo'))
             and (isa(ci, 'info.SectionInfo') or key == ci.name)
-            and ci.name is not None and ci.name != '')
+            and ci.name is not None and ci.name != '' and default_wf(ci) and ci.minOccurs >= 0)
 
 
 def slot_ok(ci, values):
@@ -207,3 +207,75 @@ def section_added(old, new, ci, sectvalue):
         return (is_alt(new, 'lst') and len(n) == len(o) + 1 and n[:-1] == o and is_alt(n[-1], 'sv')
                 and alt(n[-1], 'sv') == sectvalue)
     return is_alt(old, 'none') and is_alt(new, 'sv') and alt(new, 'sv') == sectvalue
+
+
+def default_of(ci):
+    """The defaults a child carries: what its schema element declared (single value, list,
+    or mapping for a wildcard key); section slots have none (an empty list for a multisection)."""
+    if isa(ci, 'info.BaseKeyInfo'):
+        return cast(ci, 'info.BaseKeyInfo')._default
+    if ci.maxOccurs > 1:
+        return empty_list_slot()
+    return none_slot()
+
+
+def default_wf(ci):
+    """Shape of the stored defaults (representation invariant): a mapping for a wildcard
+    key, a list for a multikey, a single value or nothing for a key; a required single
+    key has no default."""
+    d = default_of(ci)
+    if is_wildcard_key(ci):
+        return is_alt(d, 'kmap')
+    if ci.maxOccurs > 1:
+        return is_alt(d, 'lst')
+    if isa(ci, 'info.SectionInfo'):
+        return is_alt(d, 'none')
+    return (is_alt(d, 'none') or is_alt(d, 'vi')) and (ci.minOccurs == 0 or is_alt(d, 'none'))
+
+
+def complete_ok(ci, slot):
+    """C01 completion of one child when its container is closed: a wildcard key needs at
+    least minOccurs keys FROM THE TEXT; a multikey / multisection needs minOccurs values,
+    the schema defaults standing in when the text gives none; a required single key or
+    section must have been given."""
+    d = default_of(ci)
+    if is_wildcard_key(ci):
+        if len(alt(slot, 'kmap')) < ci.minOccurs:
+            return False
+        if ci.maxOccurs > 1 and len(alt(slot, 'kmap')) == 0:
+            return len(alt(d, 'kmap')) >= ci.minOccurs
+        return True
+    if ci.maxOccurs > 1:
+        if len(alt(slot, 'lst')) == 0:
+            return len(alt(d, 'lst')) >= ci.minOccurs
+        return len(alt(slot, 'lst')) >= ci.minOccurs
+    return not (is_alt(slot, 'none') and ci.minOccurs > 0 and is_alt(d, 'none'))
+
+
+def complete_slot(ci, slot):
+    """C02: what the slot holds once the container is closed - the schema defaults are
+    filled in where the text gave nothing (copied, never the schema's own containers);
+    for a wildcard KEY the defaults are applied later, all or nothing (see constuct)."""
+    d = default_of(ci)
+    if is_wildcard_key(ci):
+        if ci.maxOccurs > 1 and len(alt(slot, 'kmap')) == 0:
+            return d
+        return slot
+    if ci.maxOccurs > 1:
+        if len(alt(slot, 'lst')) == 0:
+            return d
+        return slot
+    if is_alt(slot, 'none') and not isa(ci, 'info.SectionInfo'):
+        return d
+    return slot
+
+
+@recursive(['Ref[info.SectionType]', 'Map[str, Slot]', 'int'], 'int')
+def first_incomplete(t, values, i):
+    """Index of the first child (schema order, from i) that is not complete, or -1."""
+    if i >= len(t._children):
+        return -1
+    ci = t._children[i][1]
+    if not complete_ok(ci, values[val(ci.attribute)]):
+        return i
+    return first_incomplete(t, values, i + 1)
